@@ -68,7 +68,7 @@ namespace adm {
     return jumpPosition.set(JumpPositionFlag(false));
   }
   InterpolationLength parseInterpolationLength(const std::string &length) {
-    auto floatTime = std::chrono::duration<float>(stof(length));
+    auto floatTime = std::chrono::duration<double>(stod(length));
     return InterpolationLength(
         std::chrono::duration_cast<std::chrono::nanoseconds>(floatTime));
   }
@@ -76,7 +76,7 @@ namespace adm {
   std::string formatInterpolationLength(const InterpolationLength length) {
     std::stringstream ss;
     ss << std::setprecision(5) << std::fixed
-       << std::chrono::duration_cast<std::chrono::duration<float>>(length.get())
+       << std::chrono::duration_cast<std::chrono::duration<double>>(length.get())
               .count();
     return ss.str();
   }
